@@ -321,7 +321,14 @@ func (x *Exec) convert(from, to types.Type, v Value) Value {
 					if x.branch(ts.Cmp(OULt, fv, ts.BV(fv.S.W, 0x80)), "rune-ascii") {
 						return Str{[]*Term{ts.Trunc(fv, 8)}}
 					}
-					x.unsupported("symbolic non-ASCII rune to string")
+					// two-byte UTF-8 sequence for U+0080..U+07FF (covers every byte value converted as a rune)
+					if x.branch(ts.Cmp(OULt, fv, ts.BV(fv.S.W, 0x800)), "rune-2byte") {
+						w := fv.S.W
+						hi := ts.Bin(OBOr, ts.BV(w, 0xC0), ts.Bin(OLShr, fv, ts.BV(w, 6)))
+						lo := ts.Bin(OBOr, ts.BV(w, 0x80), ts.Bin(OBAnd, fv, ts.BV(w, 0x3F)))
+						return Str{[]*Term{ts.Trunc(hi, 8), ts.Trunc(lo, 8)}}
+					}
+					x.unsupported("symbolic rune above U+07FF to string")
 				}
 				return ts.StrOf(string(rune(fv.SVal())))
 			}
